@@ -13,7 +13,8 @@ Whole-parse tie (PM/DomWalk.lean): the DOM walk itself — add_all / add_dom / a
 add_element_by_rule / read_styles / leaf_fallback / ignore_fallback / normalize_list / match_tag / match_style — runs in the
 model over an oracle-annotated abstract DOM (the oracle holds only lxml / cssselect / `re` / callback answers); for every
 generated HTML the model's list of calls into the placement core and its final document are compared with the real parse
-(theorems parse_total, parse_valid, context_rules_apply_exactly in Props/C19.lean); `schema_rules` ordering is tied too.
+(theorems parse_total, parse_valid, parse_no_internal, context_rules_apply_exactly in Props/C19.lean); `schema_rules` ordering is
+tied too (schema_rules_order), and the decidable guards of parse_no_internal are evaluated on every input of the tie.
 Search (named as such): termination (per-call alarm) and no-crash of lxml / cssselect / `re` on generated HTML; validity of the parsed
 document (check() + independent validator); context-restricted rules apply exactly where the open
 ancestors match; serialise → parse round trip on whitespace-normal documents of the bundled schemas.
